@@ -49,7 +49,10 @@ def rules(t):
                 if names.get(v) == "Ordered":
                     others = [x for w, x in br["targets"].items() if w != v] + [br["otherwise"]]
                     reg = pm.reachable_from([tgt]) - set().union(*[pm.reachable_from([o]) for o in others])
-                    if any(g.bb in reg and method_of(callee_name(g.node)) == "insert" and "VacantEntry" not in callee_name(g.node) for g in grows): r.bad("overwrite", None, "ordered arm inserts with BTreeMap::insert (may overwrite a buffered message)")
+                    absent, present = map_key_edges(t, pm, "messages", lambda k: "message_id" in fmt(k))
+                    for g in grows:
+                        if g.bb in reg and method_of(callee_name(g.node)) == "insert" and "VacantEntry" not in callee_name(g.node):
+                            if not any(t.edge_dominates(pm, e, g.bb) for e in absent): r.bad("overwrite", g, "ordered arm stores a message with BTreeMap::insert on a path where the id may already be buffered (a buffered message could be overwritten)")
     out.append(r)
     sm = t.fn("SendChannelReliable::send_message")
     r = RuleResult("C01.d", "message ids are assigned from a counter that advances by one per submitted message", floor=2)
